@@ -273,6 +273,10 @@ type GRPCBroker struct {
 	clientStreams map[uint32]*gRPCBrokerPending
 	serverStreams map[uint32]*gRPCBrokerPending
 
+	// serving holds the listeners of running AcceptAndServe calls, so that
+	// Close can close them (and remove their socket files) synchronously.
+	serving map[net.Listener]struct{}
+
 	unixSocketCfg  UnixSocketConfig
 	addrTranslator runner.AddrTranslator
 
@@ -297,6 +301,7 @@ func newGRPCBroker(s streamer, tls *tls.Config, unixSocketCfg UnixSocketConfig, 
 
 		clientStreams: make(map[uint32]*gRPCBrokerPending),
 		serverStreams: make(map[uint32]*gRPCBrokerPending),
+		serving:       make(map[net.Listener]struct{}),
 		muxer:         muxer,
 
 		unixSocketCfg:  unixSocketCfg,
@@ -385,7 +390,15 @@ func (b *GRPCBroker) AcceptAndServe(id uint32, newGRPCServer func([]grpc.ServerO
 		log.Printf("[ERR] plugin: plugin acceptAndServe error: %s", err)
 		return
 	}
-	defer ln.Close()
+	b.Lock()
+	b.serving[ln] = struct{}{}
+	b.Unlock()
+	defer func() {
+		b.Lock()
+		delete(b.serving, ln)
+		b.Unlock()
+		ln.Close()
+	}()
 
 	var opts []grpc.ServerOption
 	if b.tls != nil {
@@ -430,6 +443,19 @@ func (b *GRPCBroker) Close() error {
 	b.o.Do(func() {
 		close(b.doneCh)
 	})
+
+	// Close the listeners of the servers still being served here rather than
+	// leaving it to their goroutines: the process may exit before they run,
+	// and a Unix socket file would be left behind.
+	b.Lock()
+	var lns []net.Listener
+	for ln := range b.serving {
+		lns = append(lns, ln)
+	}
+	b.Unlock()
+	for _, ln := range lns {
+		ln.Close()
+	}
 	return nil
 }
 
